@@ -415,6 +415,35 @@ impl FrameEncoder {
         r is Ok ==> final(dst)@ == old(dst)@ + frame_octets(old(self).max_frame_body_size as int, item),      // [C06.frame.layout] every frame handed to the codec is the 4 header octets that follow the size (doff = 2, type = AMQP, the frame's channel big-endian) followed by exactly the encoding of ITS performative -- an empty frame (heartbeat) is the header alone, a transfer is the frame sequence of [C06.split.exact] -- appended after whatever the buffer already held
 //@@ end
 }
+// ---- SASL frames (frames/sasl.rs): Encoder<Frame> for FrameCodec ----
+pub const FRAME_TYPE_SASL: u8 = 0x01;
+#[verifier::external_body]
+pub struct SaslFrame { _p: u8 }
+impl SaslFrame {
+    pub uninterp spec fn penc(&self) -> Seq<u8>;
+    #[verifier::external_body]
+    pub fn serialize<'a>(&self, s: &mut Serializer<'a>) -> (r: Result<(), SerError>)
+        ensures r is Ok ==> final(s).writer.buf@ == old(s).writer.buf@ + self.penc(), *final(final(s).writer.buf) == *final(old(s).writer.buf),
+    { unimplemented!() }
+}
+pub struct FrameCodec {}
+pub trait ErrInto<T>: Sized { spec fn conv(self) -> T; fn err_into(self) -> (r: T) ensures r == self.conv(); }
+impl ErrInto<FrameError> for SerError { open spec fn conv(self) -> FrameError { FrameError::Ser(self) } fn err_into(self) -> (r: FrameError) { FrameError::Ser(self) } }
+impl FrameCodec {
+//@@ fn file=fe2o3-amqp/src/frames/sasl.rs impl=`impl Encoder<Frame> for FrameCodec` name=encode as=sasl_encode
+//@@ qmark
+//@@ param item : SaslFrame
+//@@ param dst : &mut BytesMut
+//@@ ret Result<(), FrameError>
+//@@ subst `use bytes::BufMut;` => `` rule=R6
+//@@ subst `use serde_amqp::ser::Serializer;` => `` rule=R6
+//@@ entry
+        assert((0u16 >> 8) as u8 == 0u8 && (0u16 & 0xff) as u8 == 0u8) by (bit_vector);
+//@@ spec
+    ensures
+        r is Ok ==> final(dst)@ =~= old(dst)@ + seq![2u8, 1u8, 0u8, 0u8] + item.penc(),      // [C06.frame.layout] [C19.sasl.frame-layout] a SASL frame is doff = 2, type = 0x01, two zero octets, then the encoding of the SASL performative (AMQP 1.0 part 5.3.1); the size octets are prepended by the length-delimited codec
+//@@ end
+}
 
 } // verus!
 fn main() {}
